@@ -247,7 +247,7 @@ DoBeginCb(d, m, c) ==
     LET f == Top(m) IN
     SetTop([m EXCEPT !.ninv = @ + 1],
            [f EXCEPT !.pending = @ \ {c},
-                     !.open = @ \cup {[c |-> c, wait |-> "no", got |-> NoRes]},
+                     !.open = @ \cup {[c |-> c, wait |-> "no", got |-> NoRes, sent |-> FALSE]},
                      !.res = IF f.phase \in {"before", "on"} THEN Append(@, [c |-> c, v |-> "?"]) ELSE @])
 
 \* sm.send(ev) from inside callback c.  RTC: put, the try-acquire fails, the callback gets None
